@@ -104,6 +104,7 @@ struct FnOverlay {
     opts: HashMap<String, String>,
     drop_stmts: Vec<String>,
     folds: BTreeMap<String, String>,
+    shapes: HashMap<String, Vec<String>>,
 }
 #[derive(Debug)]
 enum Directive {
@@ -270,6 +271,14 @@ fn parse_vspec(path: &str) -> (String, Vec<Directive>) {
                             let b = body(&lines, &mut i);
                             ov.folds.insert(rest.to_string(), b.trim().to_string());
                         }
+                        "@shape" => {
+                            // @shape BLOCK sig|sig|...   expected statement shapes of a block (for alignment of ordinal anchors)
+                            let mut w = rest.splitn(2, char::is_whitespace);
+                            let b = w.next().unwrap_or_else(|| die("@shape BLOCK sigs")).to_string();
+                            let sigs: Vec<String> = w.next().unwrap_or("").split('|').map(|x| x.trim().to_string()).filter(|x| !x.is_empty()).collect();
+                            ov.shapes.insert(b, sigs);
+                            i += 1;
+                        }
                         "@drop" => {
                             ov.drop_stmts.push(rest.to_string());
                             i += 1;
@@ -397,6 +406,8 @@ struct Walker<'s> {
     matches: usize,
     folds: usize,
     block_stmts: HashMap<String, usize>,
+    shapes_seen: Vec<(String, Vec<String>)>,
+    realigned: Vec<String>,
     env: Vec<HashMap<String, (K, K)>>,
     used: HashSet<String>,
     cut_defs: Vec<String>,
@@ -585,12 +596,43 @@ impl<'s> Walker<'s> {
         self.env.push(HashMap::new());
         let n = b.stmts.len();
         self.block_stmts.insert(name.to_string(), n);
-        for (k, st) in b.stmts.iter().enumerate() {
-            let key = format!("{}.s{}", name, k);
-            let st_start = self.stmt_start(st);
-            if let Some(t) = self.anchor_text(&key) {
-                self.open(st_start, &format!("{}\n", t.trim_end()), "overlay");
+        let actual_shapes: Vec<String> = b.stmts.iter().map(stmt_shape).collect();
+        self.shapes_seen.push((name.to_string(), actual_shapes.clone()));
+        // ordinal anchors are written against the expected shape of the block; after an edit that inserts or deletes
+        // statements they are re-attached through an LCS alignment of the statement shapes
+        let (n_exp, before): (usize, Vec<Vec<usize>>) = match self.ov.shapes.get(name) {
+            Some(exp) if *exp != actual_shapes => {
+                let al = lcs_align(exp, &actual_shapes);
+                let mut before: Vec<Vec<usize>> = vec![Vec::new(); n + 1];
+                let mut pending: Vec<usize> = Vec::new();
+                for (e, a) in al.iter().enumerate() {
+                    match a {
+                        Some(j) => {
+                            before[*j].extend(pending.drain(..));
+                            before[*j].push(e);
+                        }
+                        None => pending.push(e),
+                    }
+                }
+                before[n].extend(pending.drain(..));
+                self.realigned.push(name.to_string());
+                (exp.len(), before)
             }
+            _ => (n, (0..=n).map(|k| if k < n { vec![k] } else { vec![] }).collect()),
+        };
+        for (k, st) in b.stmts.iter().enumerate() {
+            let st_start = self.stmt_start(st);
+            // expected index of this statement (None if it was inserted by the edit)
+            let exp_idx: Option<usize> = before[k].last().copied().filter(|e| self.ov.shapes.get(name).map(|x| x.get(*e) == Some(&actual_shapes[k])).unwrap_or(true));
+            for e in before[k].iter() {
+                if let Some(t) = self.anchor_text(&format!("{}.s{}", name, e)) {
+                    self.open(st_start, &format!("{}\n", t.trim_end()), "overlay");
+                }
+            }
+            let key = match exp_idx {
+                Some(e) => format!("{}.s{}", name, e),
+                None => format!("{}.inserted{}", name, k),
+            };
             let is_tail = k == n - 1 && is_value_tail(st);
             if is_tail {
                 if let Some(t) = self.anchor_text(&format!("{}.end", name)) {
@@ -634,11 +676,13 @@ impl<'s> Walker<'s> {
                 self.open(close, &format!("{}\n", t.trim_end()), "overlay");
             }
         }
-        if let Some(t) = self.anchor_text(&format!("{}.s{}", name, n)) {
-            if has_tail {
-                die(&format!("anchor {}.s{} addresses the position after a tail expression", name, n));
+        for e in before[n].iter().copied().chain(std::iter::once(n_exp)) {
+            if let Some(t) = self.anchor_text(&format!("{}.s{}", name, e)) {
+                if has_tail {
+                    die(&format!("anchor {}.s{} addresses the position after a tail expression", name, e));
+                }
+                self.open(close, &format!("{}\n", t.trim_end()), "overlay");
             }
-            self.open(close, &format!("{}\n", t.trim_end()), "overlay");
         }
         self.env.pop();
     }
@@ -863,7 +907,20 @@ impl<'s> Walker<'s> {
                     self.open(s, &format!("{} ", t.trim()), "overlay");
                 }
                 let open = self.src.off(f.body.brace_token.span.open().start());
-                if let Some(t) = self.anchor_text(&format!("{}.inv", name)) {
+                let desugar = self.ov.opts.get("desugar_for").map(|v| v.split(',').any(|x| x == name)).unwrap_or(false);
+                if desugar {
+                    // R14: `for PAT in EXPR BODY`  ->  `{ let mut verif_it = EXPR; loop INV { match verif_it.next() { None => break, Some(PAT) => BODY } } }`
+                    // (the definition of `for` in the Rust reference, for an expression that already is an iterator)
+                    let (fs, _) = self.src.range(e.span());
+                    let (ps, pe) = self.src.range(f.pat.span());
+                    let (xs, xe) = self.src.range(f.expr.span());
+                    let pat_txt = self.src.text[ps..pe].to_string();
+                    let inv = self.anchor_text(&format!("{}.inv", name)).unwrap_or_default();
+                    self.replace((fs, xs), &format!("{{ let mut verif_it_{} = ", name), "R14");
+                    self.rule(xe, open, format!("; loop\n{}\n{{ match verif_it_{}.next() {{ None => break, Some({}) => ", inv.trim_end(), name, pat_txt), 2, 0, "R14");
+                    let close = self.src.off(f.body.brace_token.span.close().end());
+                    self.close(close, " } } }", "R14");
+                } else if let Some(t) = self.anchor_text(&format!("{}.inv", name)) {
                     self.open(open, &format!("\n{}\n", t.trim_end()), "overlay");
                 }
                 self.env.push(HashMap::new());
@@ -961,6 +1018,16 @@ impl<'s> Walker<'s> {
                         self.replace((re, po_end), ", ", "R13");
                         let lead = if m.args.trailing_punct() { "" } else { ", " };
                         self.close(pc_start, &format!("{}Ghost({})", lead, inv), "R13");
+                    }
+                    "filter" if m.args.len() == 1 => {
+                        self.folds += 1;
+                        let key = format!("F{}", self.folds);
+                        let pred = self.ov.folds.get(&key).cloned().unwrap_or_else(|| die(&format!("lost anchor: filter `{}` has no @fold overlay (predicate) at {}:{}", key, self.src.path, self.src.line_of(es))));
+                        self.used.insert(format!("fold:{}", key));
+                        self.open(es, "verif_filter(", "R13");
+                        self.replace((re, po_end), ", ", "R13");
+                        let lead = if m.args.trailing_punct() { "" } else { ", " };
+                        self.close(pc_start, &format!("{}Ghost({})", lead, pred), "R13");
                     }
                     "enumerate" if m.args.is_empty() => {
                         self.open(es, "verif_enumerate(", "R13");
@@ -1219,6 +1286,13 @@ impl<'s> Walker<'s> {
                         let (rs, re) = self.src.range(b.right.span());
                         self.open(rs, "*(", "R2");
                         self.close(re, ")", "R2");
+                    } else if let syn::Expr::Reference(r) = &*b.right {
+                        // `a <= &b` with a: &T   ==>   `*a <= b`
+                        let amp = self.src.range(r.and_token.span());
+                        self.replace(amp, "", "R2");
+                        let (ls, le) = self.src.range(b.left.span());
+                        self.open(ls, "*(", "R2");
+                        self.close(le, ")", "R2");
                     }
                 }
                 _ => {}
@@ -1312,6 +1386,81 @@ impl<'s> Walker<'s> {
         }
         self.env.pop();
     }
+}
+
+/// shape signature of a statement: kind + the identifier it binds / calls (used to align ordinal anchors after an edit)
+fn stmt_shape(st: &syn::Stmt) -> String {
+    fn pat_ids(p: &syn::Pat, out: &mut Vec<String>) {
+        match p {
+            syn::Pat::Ident(i) => out.push(i.ident.to_string()),
+            syn::Pat::Type(t) => pat_ids(&t.pat, out),
+            syn::Pat::Tuple(t) => t.elems.iter().for_each(|e| pat_ids(e, out)),
+            syn::Pat::Reference(r) => pat_ids(&r.pat, out),
+            syn::Pat::TupleStruct(t) => t.elems.iter().for_each(|e| pat_ids(e, out)),
+            _ => {}
+        }
+    }
+    fn root(e: &syn::Expr) -> String {
+        match e {
+            syn::Expr::Path(p) => p.path.segments.last().map(|s| s.ident.to_string()).unwrap_or_default(),
+            syn::Expr::Index(i) => root(&i.expr),
+            syn::Expr::Field(f) => root(&f.base),
+            syn::Expr::Unary(u) => root(&u.expr),
+            syn::Expr::Paren(p) => root(&p.expr),
+            syn::Expr::MethodCall(m) => format!("{}.{}", root(&m.receiver), m.method),
+            syn::Expr::Call(c) => root(&c.func),
+            syn::Expr::Reference(r) => root(&r.expr),
+            _ => String::new(),
+        }
+    }
+    match st {
+        syn::Stmt::Local(l) => {
+            let mut v = Vec::new();
+            pat_ids(&l.pat, &mut v);
+            format!("let:{}", v.join(","))
+        }
+        syn::Stmt::Macro(m) => format!("macro:{}", m.mac.path.segments.last().map(|s| s.ident.to_string()).unwrap_or_default()),
+        syn::Stmt::Item(_) => "item".to_string(),
+        syn::Stmt::Expr(e, _) => match e {
+            syn::Expr::ForLoop(_) => "for".to_string(),
+            syn::Expr::While(_) => "while".to_string(),
+            syn::Expr::Loop(_) => "loop".to_string(),
+            syn::Expr::If(i) => if matches!(&*i.cond, syn::Expr::Let(_)) { "iflet".to_string() } else { "if".to_string() },
+            syn::Expr::Match(_) => "match".to_string(),
+            syn::Expr::Return(_) => "return".to_string(),
+            syn::Expr::Break(_) => "break".to_string(),
+            syn::Expr::Assign(a) => format!("assign:{}", root(&a.left)),
+            syn::Expr::Binary(b) => format!("op:{}", root(&b.left)),
+            syn::Expr::Macro(m) => format!("macro:{}", m.mac.path.segments.last().map(|s| s.ident.to_string()).unwrap_or_default()),
+            syn::Expr::Block(_) => "block".to_string(),
+            other => format!("expr:{}", root(other)),
+        },
+    }
+}
+
+/// longest common subsequence alignment: for each expected index the matched actual index
+fn lcs_align(exp: &[String], act: &[String]) -> Vec<Option<usize>> {
+    let (n, m) = (exp.len(), act.len());
+    let mut t = vec![vec![0usize; m + 1]; n + 1];
+    for i in (0..n).rev() {
+        for j in (0..m).rev() {
+            t[i][j] = if exp[i] == act[j] { t[i + 1][j + 1] + 1 } else { t[i + 1][j].max(t[i][j + 1]) };
+        }
+    }
+    let mut out = vec![None; n];
+    let (mut i, mut j) = (0, 0);
+    while i < n && j < m {
+        if exp[i] == act[j] {
+            out[i] = Some(j);
+            i += 1;
+            j += 1;
+        } else if t[i + 1][j] >= t[i][j + 1] {
+            i += 1;
+        } else {
+            j += 1;
+        }
+    }
+    out
 }
 
 /// a trailing expression that is the value of its block (loops without `;` are statements of type `()`)
@@ -1514,6 +1663,8 @@ fn extract_fn(src: &Src, file: &syn::File, selector: &str, ov: &FnOverlay, map: 
         matches: 0,
         folds: 0,
         block_stmts: HashMap::new(),
+        shapes_seen: vec![],
+        realigned: vec![],
         env: vec![HashMap::new()],
         used: HashSet::new(),
         cut_defs: Vec::new(),
@@ -1551,7 +1702,7 @@ fn extract_fn(src: &Src, file: &syn::File, selector: &str, ov: &FnOverlay, map: 
                 }
                 first = false;
                 // parameter type with R3 applied
-                let mut tw = Walker { src, ov, edits: Vec::new(), depth: 0, loops: 0, closures: 0, ifs: 0, matches: 0, folds: 0, block_stmts: HashMap::new(), env: vec![HashMap::new()], used: HashSet::new(), cut_defs: vec![], cut_info: vec![], r2: true };
+                let mut tw = Walker { src, ov, edits: Vec::new(), depth: 0, loops: 0, closures: 0, ifs: 0, matches: 0, folds: 0, block_stmts: HashMap::new(), shapes_seen: vec![], realigned: vec![], env: vec![HashMap::new()], used: HashSet::new(), cut_defs: vec![], cut_info: vec![], r2: true };
                 tw.walk_type(&pt.ty);
                 let (ts, te) = src.range(pt.ty.span());
                 let (tytxt, _) = apply(src, ts, te, &mut tw.edits);
@@ -1566,7 +1717,7 @@ fn extract_fn(src: &Src, file: &syn::File, selector: &str, ov: &FnOverlay, map: 
     }
     head.push(')');
     if let syn::ReturnType::Type(_, ty) = &sig.output {
-        let mut tw = Walker { src, ov, edits: Vec::new(), depth: 0, loops: 0, closures: 0, ifs: 0, matches: 0, folds: 0, block_stmts: HashMap::new(), env: vec![HashMap::new()], used: HashSet::new(), cut_defs: vec![], cut_info: vec![], r2: true };
+        let mut tw = Walker { src, ov, edits: Vec::new(), depth: 0, loops: 0, closures: 0, ifs: 0, matches: 0, folds: 0, block_stmts: HashMap::new(), shapes_seen: vec![], realigned: vec![], env: vec![HashMap::new()], used: HashSet::new(), cut_defs: vec![], cut_info: vec![], r2: true };
         tw.walk_type(ty);
         let (ts, te) = src.range(ty.span());
         let (tytxt, _) = apply(src, ts, te, &mut tw.edits);
@@ -1587,7 +1738,7 @@ fn extract_fn(src: &Src, file: &syn::File, selector: &str, ov: &FnOverlay, map: 
         let mut sr: Vec<(&'static str, usize)> = Vec::new();
         if let Some(im) = sel.imp {
             let g = generics_text(src, &im.generics, &mut sr);
-            let mut tw = Walker { src, ov, edits: Vec::new(), depth: 0, loops: 0, closures: 0, ifs: 0, matches: 0, folds: 0, block_stmts: HashMap::new(), env: vec![HashMap::new()], used: HashSet::new(), cut_defs: vec![], cut_info: vec![], r2: true };
+            let mut tw = Walker { src, ov, edits: Vec::new(), depth: 0, loops: 0, closures: 0, ifs: 0, matches: 0, folds: 0, block_stmts: HashMap::new(), shapes_seen: vec![], realigned: vec![], env: vec![HashMap::new()], used: HashSet::new(), cut_defs: vec![], cut_info: vec![], r2: true };
             tw.walk_type(&im.self_ty);
             let (ts, te) = src.range(im.self_ty.span());
             let (selfty, _) = apply(src, ts, te, &mut tw.edits);
@@ -1634,7 +1785,11 @@ fn extract_fn(src: &Src, file: &syn::File, selector: &str, ov: &FnOverlay, map: 
         if *c == sel.sig.ident.to_string() || norm(c) == norm(selector) {
             canary_here = true;
             let n = sel.block.stmts.len();
-            let pos = if n > 0 && is_value_tail(&sel.block.stmts[n - 1]) {
+            // a function whose last statement diverges (panic!) names the statement before which the canary goes
+            let at: Option<usize> = ov.opts.get("canary_before").and_then(|v| v.parse().ok());
+            let pos = if let Some(k) = at.filter(|k| *k < n) {
+                src.off(sel.block.stmts[k].span().start())
+            } else if n > 0 && is_value_tail(&sel.block.stmts[n - 1]) {
                 src.off(sel.block.stmts[n - 1].span().start())
             } else {
                 src.off(sel.block.brace_token.span.close().start())
@@ -1650,6 +1805,7 @@ fn extract_fn(src: &Src, file: &syn::File, selector: &str, ov: &FnOverlay, map: 
             "ifs" => w.ifs,
             "folds" => w.folds,
             "stmts" => sel.block.stmts.len(),
+            other if other.ends_with(".stmts") && ov.shapes.contains_key(&other[..other.len() - 6]) => *v,
             other if other.ends_with(".stmts") => {
                 let b = &other[..other.len() - 6];
                 *w.block_stmts.get(b).unwrap_or_else(|| die(&format!("lost anchor: block `{}` does not exist in `{}`", b, selector)))
@@ -1693,7 +1849,7 @@ fn extract_fn(src: &Src, file: &syn::File, selector: &str, ov: &FnOverlay, map: 
     let mut pre_lines = 0usize;
     if let Some(im) = sel.imp {
         let g = generics_text(src, &im.generics, &mut sigrules);
-        let mut tw = Walker { src, ov, edits: Vec::new(), depth: 0, loops: 0, closures: 0, ifs: 0, matches: 0, folds: 0, block_stmts: HashMap::new(), env: vec![HashMap::new()], used: HashSet::new(), cut_defs: vec![], cut_info: vec![], r2: true };
+        let mut tw = Walker { src, ov, edits: Vec::new(), depth: 0, loops: 0, closures: 0, ifs: 0, matches: 0, folds: 0, block_stmts: HashMap::new(), shapes_seen: vec![], realigned: vec![], env: vec![HashMap::new()], used: HashSet::new(), cut_defs: vec![], cut_info: vec![], r2: true };
         tw.walk_type(&im.self_ty);
         let (ts, te) = src.range(im.self_ty.span());
         let (selfty, _) = apply(src, ts, te, &mut tw.edits);
@@ -1758,6 +1914,8 @@ fn extract_fn(src: &Src, file: &syn::File, selector: &str, ov: &FnOverlay, map: 
         "loops": w.loops, "closures": w.closures, "ifs": w.ifs,
         "cuts": w.cut_info,
         "canary": canary_here,
+        "realigned_blocks": w.realigned,
+        "shapes": w.shapes_seen.iter().map(|(b, v)| format!("@shape {} {}", b, v.join("|"))).collect::<Vec<_>>(),
     }));
     text
 }
@@ -1784,7 +1942,7 @@ fn extract_struct(src: &Src, file: &syn::File, name: &str, opts: &HashMap<String
                 t.push_str(&format!("pub struct {}{} {{\n", s.ident, g));
                 let mut n_r3 = 0;
                 for f in s.fields.iter() {
-                    let mut tw = Walker { src, ov: &ov, edits: Vec::new(), depth: 0, loops: 0, closures: 0, ifs: 0, matches: 0, folds: 0, block_stmts: HashMap::new(), env: vec![HashMap::new()], used: HashSet::new(), cut_defs: vec![], cut_info: vec![], r2: true };
+                    let mut tw = Walker { src, ov: &ov, edits: Vec::new(), depth: 0, loops: 0, closures: 0, ifs: 0, matches: 0, folds: 0, block_stmts: HashMap::new(), shapes_seen: vec![], realigned: vec![], env: vec![HashMap::new()], used: HashSet::new(), cut_defs: vec![], cut_info: vec![], r2: true };
                     tw.walk_type(&f.ty);
                     n_r3 += tw.edits.len();
                     let (ts, te) = src.range(f.ty.span());
